@@ -208,13 +208,13 @@ theorem retry_waits_backoff (pre : List (Outcome × Nat × Bool)) (hpre : ∀ x 
 theorem breaker_no_call_while_open (b : Breaker) (now : Int) (s : Bool)
     (ho : b.state = .opened) (hc : now - b.lastFailure < b.cooldown) :
     b.call now s = (b, false) := by
-  simp [Breaker.call, ho, hc]
+  simp [Breaker.call, Breaker.callD, ho, hc]
 
 /-- Any invocation that succeeds closes the breaker and resets the count. -/
 theorem breaker_closes_on_success (b : Breaker) (now : Int)
     (h : ¬ (b.state = .opened ∧ now - b.lastFailure < b.cooldown)) :
     (b.call now true).2 = true ∧ (b.call now true).1.state = .closed ∧ (b.call now true).1.failures = 0 := by
-  simp [Breaker.call, h]
+  simp [Breaker.call, Breaker.callD, h]
 
 /-- `k` consecutive failures applied to a breaker (times given by `ts`). -/
 def failRun (b : Breaker) : List Int → Breaker
@@ -231,7 +231,7 @@ theorem breaker_closed_below_threshold (b : Breaker) (ts : List Int)
     simp only [List.length_cons] at hlt
     have hlt' : b.failures + 1 < b.threshold := by omega
     have hstep : (b.call t false).1 = { b with failures := b.failures + 1, lastFailure := t } := by
-      simp [Breaker.call, hs]
+      simp [Breaker.call, Breaker.callD, hs]
       omega
     have := ih (b.call t false).1 (by rw [hstep]; exact hs) (by rw [hstep]; simp; omega)
       (by rw [hstep]; simp; omega)
@@ -250,7 +250,7 @@ theorem failRun_threshold (b : Breaker) (ts : List Int) :
     simp only [failRun]
     have := ih (b.call t false).1
     rw [this.1, this.2]
-    simp only [Breaker.call]
+    simp only [Breaker.call, Breaker.callD]
     split <;> simp <;> split <;> simp
 
 /-- It opens at exactly `failureThreshold` consecutive failures counted from a closed, reset breaker:
@@ -267,10 +267,27 @@ theorem breaker_opens_at_threshold (th cd : Int) (ts : List Int) (t : Int)
   obtain ⟨hs, hf⟩ := h
   have hthr := (failRun_threshold b0 ts).1
   refine ⟨hs, ?_, ?_⟩
-  · simp [Breaker.call, hs]
-  · simp only [Breaker.call, hs]
+  · simp [Breaker.call, Breaker.callD, hs]
+  · simp only [Breaker.call, Breaker.callD, hs]
     simp [hf, hthr, b0]
     omega
+
+/-- The cooldown runs from the moment the failing operation *returned*: after a failed invocation that lasted from `now`
+    to `fin` and left the breaker open, every call entered less than a cooldown after `fin` is refused — however long the
+    operation took. -/
+theorem breaker_cooldown_from_completion (b : Breaker) (now fin now' fin' : Int) (s : Bool)
+    (hopen : (b.callD now fin false).1.state = .opened) (hinv : (b.callD now fin false).2 = true)
+    (hc : now' - fin < b.cooldown) :
+    ((b.callD now fin false).1.callD now' fin' s).2 = false := by
+  have hl : (b.callD now fin false).1.lastFailure = fin ∧ (b.callD now fin false).1.cooldown = b.cooldown := by
+    by_cases hg : b.state = .opened ∧ now - b.lastFailure < b.cooldown
+    · simp [Breaker.callD, hg] at hinv
+    · by_cases ho : b.state = .opened
+      · have hn : ¬ (now - b.lastFailure < b.cooldown) := fun h => hg ⟨ho, h⟩
+        simp [Breaker.callD, ho, hn]
+      · simp [Breaker.callD, ho]
+  generalize hb' : (b.callD now fin false).1 = b' at hopen hl
+  simp [Breaker.callD, hopen, hl.1, hl.2, hc]
 
 /-- Non-vacuity / sanity: threshold 3, three failures at t = 1,2,3 open it; a call inside the cooldown
     is refused; after the cooldown a success closes it. -/
@@ -278,5 +295,11 @@ example :
     let b := failRun { threshold := 3, cooldown := 100 } [1, 2, 3]
     b.state = .opened ∧ (b.call 50 true).2 = false ∧ (b.call 103 true).2 = true ∧
     (b.call 103 true).1.state = .closed := by decide
+
+/-- … and a slow failure: threshold 1, cooldown 400, an operation that runs from 0 to 400 and fails; a call at 500 is
+    refused (100 after the failure), one at 800 goes through. -/
+example :
+    let b := ({ threshold := 1, cooldown := 400 } : Breaker).callD 0 400 false
+    b.1.state = .opened ∧ (b.1.callD 500 500 true).2 = false ∧ (b.1.callD 800 800 true).2 = true := by decide
 
 end NLE.Theorems.C17
